@@ -17,8 +17,8 @@ import time
 from .common import add_failure, bump, log, new_outcome
 
 PROP = "C14"
-PROPS_FILES = ["CogentModel/Props/C14.lean"]
-LEAN_TARGETS = ["CogentModel.Props.C14"]
+PROPS_FILES = ["CogentModel/Props/C14.lean", "CogentModel/Props/C14Call.lean"]
+LEAN_TARGETS = ["CogentModel.Props.C14", "CogentModel.Props.C14Call"]
 DRIVER = "drv_c14"
 TRUSTED = [
     "hand-written model lean/CogentModel/Model/Composable.lean of composable._call/_validate_data_type/_apply_to/_source_wrapped "
@@ -36,6 +36,27 @@ ASSUMPTIONS = [
 ]
 
 TY_NAME = {2: "RecA", 3: "RecB"}
+
+
+# --------------------------------------------------------------------------
+# translator step: Gen/C14Call.lean from the CURRENT source of _call / _validate_data_type / _add / get_default_chunksize
+# --------------------------------------------------------------------------
+def generate(ctx):
+    import sys
+
+    from .common import LEAN, SRC, VERIF
+
+    sys.path.insert(0, str(VERIF))
+    from translator import c14_call2lean as T
+
+    try:
+        lean, info, problems = T.translate(SRC)
+    except T.TranslationError as e:
+        return [f"c14_call2lean: {e}"]
+    ctx.notes.append(f"c14_call2lean: _builtin_seqs={info.get('_builtin_seqs')} raises of _add={info.get('_add_raises')}")
+    if lean is not None and T.write_if_changed(LEAN / "CogentModel" / "Gen" / "C14Call.lean", lean):
+        ctx.notes.append("Gen/C14Call.lean was rewritten (the source of _call/_validate_data_type/_add/get_default_chunksize differs from the last translation)")
+    return [f"c14_call2lean: {p}" for p in problems]
 
 
 # --------------------------------------------------------------------------
@@ -399,6 +420,11 @@ def correspondence(ctx):
     _corr_calls(ctx, out)
     _corr_alias(ctx, out)
     _corr_parallel_book(ctx, out)
+    from . import c14_rich
+
+    c14_rich.corr_rich(ctx, out)
+    c14_rich.corr_add(ctx, out)
+    c14_rich.corr_chunksize_gen(ctx, out)
     return out
 
 
@@ -628,6 +654,9 @@ def spec_check(ctx, budget):
         else:
             out["nontrivial"].add(("custom_id", writer))
     _parallel_direct(ctx, out, budget)
+    from .c14_forms import forms_stream
+
+    forms_stream(ctx, out, budget)
     return out
 
 
@@ -883,6 +912,12 @@ def replay(ctx, data):
         return r is not None
     if inp.get("kind") in ("falsy_input", "source_inputs", "custom_id"):
         r = check_witness(ctx, inp)
+        print(r)
+        return r is not None
+    if inp.get("kind") in ("as_completed", "apply_form"):
+        from .c14_forms import replay_case
+
+        r = replay_case(ctx, inp)
         print(r)
         return r is not None
     if inp.get("kind") == "parallel_direct":
